@@ -1,21 +1,30 @@
 """py2v plug-in `geometry`: FAIL-CLOSED translation of the float geometry code of PyAutoArray to Gallina over NumOps.
 
 Emits coq/Gen/Gen_geometry.v from
-  autoarray/geometry/geometry_util.py   (scalar conversions, the slim-grid conversion loops)
-  autoarray/geometry/geometry_2d.py     (Geometry2D: shape_native_scaled, scaled_maxima, scaled_minima, extent)
-  autoarray/geometry/geometry_1d.py     (Geometry1D: the same four properties)
-  autoarray/mask/mask_2d_util.py        (mask_2d_centres_from; the circular / annular / anti-annular constructor loops)
-  autoarray/structures/grids/grid_2d_util.py, grid_1d_util.py  (pixel-centre grids from a mask)
+  autoarray/geometry/geometry_util.py   (scalar conversions, the slim-grid conversion loops, the native 3-D index loop)
+  autoarray/geometry/geometry_2d.py     (Geometry2D: the extent properties, central coordinates, the scalar and grid METHODS)
+  autoarray/geometry/geometry_1d.py     (Geometry1D: the four extent properties)
+  autoarray/mask/mask_2d_util.py        (mask_2d_centres_from; the circular / annular / anti-annular / elliptical constructor loops)
+  autoarray/mask/mask_2d.py, mask_1d.py (the classmethod constructors all_false / circular / ... / elliptical_annular, .geometry)
+  autoarray/mask/derive/{mask_2d,grid_2d,mask_1d}.py   (derive_mask.all_false, derive_grid.all_false / unmasked)
+  autoarray/structures/grids/grid_2d_util.py, grid_1d_util.py  (pixel-centre grids from a mask / from a shape)
+  autoarray/structures/grids/uniform_2d.py, uniform_1d.py      (Grid2D / Grid1D .from_mask, .uniform)
 
 Scope (everything else raises py2v.Fail naming the node -- never guessed):
-  * straight-line functions: `name = expr` assignments, a final `return expr`; docstrings skipped;
+  * straight-line functions / methods / classmethods / properties: `name = expr` assignments (local `from autoarray.x import Class` lines are
+    skipped), a final `return expr`; docstrings skipped; every default in a translated signature must be an all-zero tuple, False or None;
   * expressions: int / float constants (floats must be dyadic, emitted as exact fractions), names, tuples, constant
-    subscripts of tuples, + - * / unary -, x**2, int(), float(), np.sqrt, comparisons (also chained), and/or/not,
-    keyword calls of other translated functions, `self.<attr>` inside the pinned geometry classes;
-  * three loop shapes, recognised literally (see LOOPS below): the row-wise map over a slim grid, the masked
-    row-major gather with a running index, and the `np.full(shape, True)` + conditional `= False` double loop.
-Types are declared (SPEC tables), not inferred: Z (python int), T (python/numpy float -> NumOps carrier), tuples of these,
-`grid` = list (T*T), `vec` = list T, `mask` = list (list bool).  A python 1-tuple is its single component.
+    subscripts of tuples, + - * / unary -, x**2, int(), float(), np.sqrt, np.array(x) (values of an object / identity on tuples),
+    np.full(shape, bool), a.astype('int'), comparisons (also chained), and/or/not, keyword calls of other translated functions
+    (module-qualified, `cls.m(...)`, `Class.m(...)`, `self.m(...)`), constructor calls of the object classes, attributes of objects from a
+    fixed table (ATTRS) or translated properties (OBJPROPS), `self.<attr>` inside the pinned geometry classes;
+  * four loop shapes, recognised literally (see the tr_* functions): the row-wise map over a slim grid, the row-of-rows map over a native grid,
+    the masked row-major gather with a running index, and the `np.full(shape, True)` + conditional `= False` double loop.
+Types are declared (plan tables in gen_geometry), not inferred: Z (python int), T (python/numpy float -> NumOps carrier), tuples of these,
+`grid` = list (T*T), `vec` = list T, `mask` = list (list bool), `grid3` = list (list (T*T)), and OBJECTS = the tuple of what the constructor
+stores (Mask2D = (content, pixel_scales, origin), Grid2D = (slim values, mask object), ...: see the header of the generated file, which also
+states the pinned glue and the constructor contract).  A python 1-tuple is its single component.  An `over_sampling` parameter is opaque:
+it may only be handed on and is not represented.
 Semantics kept: operation ORDER and association exactly as written (so that exact-rational execution follows the
 code's own arithmetic), `int()` = truncation toward zero (NumOps.trunc), `/` = NumOps.div (division by zero is not
 modelled: theorems carry `pixel_scale > 0`), values written into a float array by `a[i] = int(..)` are re-injected by ofZ.
@@ -30,6 +39,12 @@ Z, T, B = "Z", "T", "bool"
 def Tup(*ts): return ("tup",) + tuple(ts)
 ZZ, TT, T4 = Tup(Z, Z), Tup(T, T), Tup(T, T, T, T)
 GRID, VEC, MASK, MASK1 = "grid", "vec", "mask", "mask1"
+GRID3 = "grid3"                      # a natively shaped grid: rows of rows of (y, x)
+# objects: an instance is the tuple of what its constructor stores (see the header of the generated file)
+M2O, G2O, A2O, GEO2 = "mask2d_obj", "grid2d_obj", "array2d_obj", "geometry2d_obj"
+M1O, G1O, GEO1 = "mask1d_obj", "grid1d_obj", "geometry1d_obj"
+DM2O, DG2O, DM1O = "derive_mask2d_obj", "derive_grid2d_obj", "derive_mask1d_obj"     # DeriveX(mask=m) is represented by m
+OPQ = "opaque"                       # a parameter that is only handed on (over_sampling): not represented
 
 def coq_ty(t):
     if t == Z: return "Z"
@@ -39,6 +54,14 @@ def coq_ty(t):
     if t == VEC: return "list (T O)"
     if t == MASK: return "list (list bool)"
     if t == MASK1: return "list bool"
+    if t == GRID3: return "list (list (T O * T O))"
+    if t in (M2O, DM2O, DG2O): return "(list (list bool) * (T O * T O) * (T O * T O))"
+    if t == G2O: return "(list (T O * T O) * " + coq_ty(M2O) + ")"
+    if t == A2O: return "(list (T O) * " + coq_ty(M2O) + ")"
+    if t == GEO2: return "((Z * Z) * (T O * T O) * (T O * T O))"
+    if t in (M1O, DM1O): return "(list bool * T O * T O)"
+    if t == G1O: return "(list (T O) * " + coq_ty(M1O) + ")"
+    if t == GEO1: return "(Z * T O * T O)"
     if isinstance(t, tuple) and t[0] == "tup":
         return "(" + " * ".join(coq_ty(x) for x in t[1:]) + ")"
     raise Fail(f"py2v: no Coq type for {t}")
@@ -59,6 +82,8 @@ class Ctx:
         self.selfinfo = selfinfo  # (class prefix, {attr: type}, {prop: type}, coq args string)
         self.subst = {}           # ast.dump(node) -> (coq, type): array reads `a[i, 0]` bound by a loop pattern
         self.real = False         # True: a real-number-only function (np.arctan2 / sin / cos / radians allowed)
+        self.clsname = None       # the class whose classmethod is being translated (`cls(...)`, `cls.m(...)`)
+        self.methods = {}         # methods of the pinned class of `self`: name -> (coq_name, params, ret)
 
 def const(v, node):
     if isinstance(v, bool): fail(node, "boolean constant")
@@ -96,6 +121,16 @@ def tr(node, cx):
             prefix, attrs, props, args = cx.selfinfo
             if node.attr in attrs: return node.attr, attrs[node.attr]
             if node.attr in props: return f"({prefix}_{node.attr} {args})", props[node.attr]
+            fail(node, "attribute")
+        if isinstance(node.value, (ast.Name, ast.Attribute)):
+            e, t = tr(node.value, cx)
+            if (t, node.attr) in ATTRS:
+                fmt, rt = ATTRS[(t, node.attr)]
+                return fmt.format(e=e), rt
+            if (t, node.attr) in OBJPROPS:                   # a translated @property of the object's class
+                cname, rt = OBJPROPS[(t, node.attr)]
+                if cx.real: cname = f"@{cname} ROps"
+                return f"({cname} {e})", rt
         fail(node, "attribute")
     if isinstance(node, ast.Subscript):
         idx = node.slice
@@ -164,28 +199,98 @@ def tr(node, cx):
         if is_np(fn, "sqrt") and len(node.args) == 1 and not node.keywords:
             e, t = tr(node.args[0], cx)
             return f"(sqrtT O {to_T(e, t, node)})", T
+        if is_np(fn, "array") and len(node.args) == 1 and not node.keywords:
+            # np.array(x): the values of a slim Grid2D / Grid1D, the content of a mask object; a tuple stays the tuple
+            e, t = tr(node.args[0], cx)
+            if t in (G2O, G1O, A2O): return f"(fst {e})", {G2O: GRID, G1O: VEC, A2O: VEC}[t]
+            if t == M2O: return f"(fst (fst {e}))", MASK
+            if t == M1O: return f"(fst (fst {e}))", MASK1
+            if t in (TT, ZZ, T, Z, GRID, VEC, MASK, MASK1): return e, t
+            fail(node, "np.array of this type")
+        if is_np(fn, "full"):
+            kw = {k.arg: k.value for k in node.keywords}
+            if node.args:
+                if kw or len(node.args) != 2: fail(node, "np.full call shape")
+                kw = {"shape": node.args[0], "fill_value": node.args[1]}
+            if set(kw) != {"shape", "fill_value"}: fail(node, "np.full arguments")
+            fv = kw["fill_value"]
+            if not (isinstance(fv, ast.Constant) and isinstance(fv.value, bool)): fail(node, "np.full fill value is not a boolean constant")
+            e, t = tr(kw["shape"], cx)
+            b = "true" if fv.value else "false"
+            if t == ZZ: return f"(full2 {b} {e})", MASK
+            if t == Z: return f"(full1 {b} {e})", MASK1
+            fail(node, "np.full shape type")
+        if (isinstance(fn, ast.Attribute) and fn.attr == "astype" and len(node.args) == 1 and not node.keywords
+                and isinstance(node.args[0], ast.Constant) and node.args[0].value == "int"):
+            e, t = tr(fn.value, cx)
+            if t == GRID: return f"(astype_int_grid {e})", GRID
+            if t == VEC: return f"(astype_int_vec {e})", VEC
+            fail(node, ".astype('int') of this type")
+        # constructors of the object classes
+        ctor = None
+        if isinstance(fn, ast.Name):
+            ctor = cx.clsname if fn.id == "cls" else fn.id
+        if ctor in CTORS and not node.args:
+            params, opt, fmt, rt = CTORS[ctor]
+            kw = {k.arg: k.value for k in node.keywords}
+            vals = {}
+            for p, pt in params:
+                if p in kw:
+                    e, t = tr(kw.pop(p), cx)
+                    if t != pt: fail(node, f"constructor {ctor}: argument {p}: expected {pt}, got {t}")
+                    vals[p] = e
+                elif p in opt: vals[p] = opt[p]
+                else: fail(node, f"constructor {ctor}: argument {p} missing")
+            for p, v in kw.items():          # an opaque pass-through argument is dropped
+                if not (p == "over_sampling" and isinstance(v, ast.Name) and cx.env.get(v.id) == OPQ): fail(node, f"constructor {ctor}: argument {p}")
+            e = fmt.format(**vals)
+            if cx.real: e = e.replace("(Mask2D_new ", "(@Mask2D_new ROps ")
+            return e, rt
         if cx.real and not node.keywords:
             for np_name, arity, coq in (("arctan2", 2, "atan2R"), ("radians", 1, "radiansR"), ("sin", 1, "sin"), ("cos", 1, "cos")):
                 if is_np(fn, np_name) and len(node.args) == arity:
                     args = [to_T(*tr(a, cx), node) for a in node.args]
                     return f"({coq} " + " ".join(args) + ")", T
         name = None
+        self_args = ""
         if isinstance(fn, ast.Name): name = fn.id
-        elif isinstance(fn, ast.Attribute) and isinstance(fn.value, ast.Name) and fn.value.id in ("geometry_util", "mask_2d_util"):
-            name = fn.attr
-        if name in cx.funcs:
-            cname, params, ret = cx.funcs[name]
+        elif isinstance(fn, ast.Attribute) and isinstance(fn.value, ast.Name):
+            if fn.value.id in ("geometry_util", "mask_2d_util", "grid_2d_util", "grid_1d_util"): name = fn.attr
+            elif fn.value.id == "self" and cx.selfinfo and fn.attr in cx.methods:        # a method of the same pinned class
+                name = "self." + fn.attr; self_args = cx.selfinfo[3] + " "
+            elif fn.value.id == "cls" and cx.clsname: name = cx.clsname + "." + fn.attr     # a classmethod of the same class
+            elif fn.value.id in OBJ_CLASSES: name = fn.value.id + "." + fn.attr               # a classmethod of an object class
+        table = dict(cx.funcs); table.update({"self." + k: v for k, v in cx.methods.items()})
+        if name in IDENTITY:
+            # pinned conversion that is the identity on an argument of the declared type (its `type(x) is float` branch is dead)
+            pname, pt = IDENTITY[name]
+            if node.args or [k.arg for k in node.keywords] != [pname]: fail(node, f"arguments of {name}")
+            e, t = tr(node.keywords[0].value, cx)
+            if t != pt: fail(node, f"argument of {name}: expected {pt}, got {t}")
+            return e, t
+        if name in table:
+            cname, params, ret = table[name][:3]
+            defaults = table[name][3] if len(table[name]) > 3 else {}
             if node.args and (node.keywords or len(node.args) != len(params)):
                 fail(node, "mixed / partial positional arguments in a call of a translated function")
             kw = {p: a for (p, _), a in zip(params, node.args)} if node.args else {k.arg: k.value for k in node.keywords}
-            if set(kw) != {p for p, _ in params}: fail(node, f"arguments of {name} are not exactly {[p for p, _ in params]}")
+            if not (set(kw) <= {p for p, _ in params} and {p for p, _ in params} - set(kw) <= set(defaults)):
+                fail(node, f"arguments of {name} are not {[p for p, _ in params]} (defaults: {sorted(defaults)})")
             args = []
             for p, pt in params:
+                if p not in kw:
+                    args.append(defaults[p]); continue
+                if pt == OPQ:
+                    if not (isinstance(kw[p], ast.Name) and cx.env.get(kw[p].id) == OPQ): fail(node, f"argument {p} of {name} is not a pass-through")
+                    continue
                 e, t = tr(kw[p], cx)
                 if t != pt:
                     if pt == T and t == Z: e = to_T(e, t, node)
+                    elif pt == TT and t == ZZ: e = f"(ofZ O (fst {e}), ofZ O (snd {e}))"
                     else: fail(node, f"argument {p} of {name}: expected {pt}, got {t}")
                 args.append(e)
+            args = [a for a in args if a is not None]
+            if self_args: args = [self_args.strip()] + args
             if cx.real and name not in REAL_ONLY: cname = f"@{cname} ROps"      # a polymorphic definition used at the reals
             if (not cx.real) and name in REAL_ONLY: fail(node, "a real-number-only function called from executable code")
             return f"({cname} " + " ".join(args) + ")", ret
@@ -205,7 +310,17 @@ def strip_doc(body):
         return body[1:]
     return body
 
+def check_zero_defaults(fn):
+    """every default written in a translated signature is one the model may ignore: an all-zero tuple (origin / origins / centre),
+    False (invert) or None (over_sampling, shape_native) -- the correspondence harness calls the entry points WITHOUT these arguments
+    whenever the value is the default, so the model (which always receives the value) stays tied to the code"""
+    for d in list(fn.args.defaults) + [d for d in fn.args.kw_defaults if d is not None]:
+        ok = (isinstance(d, ast.Constant) and (d.value is None or d.value is False)) or \
+             (isinstance(d, ast.Tuple) and d.elts and all(isinstance(e, ast.Constant) and type(e.value) is float and e.value == 0.0 for e in d.elts))
+        if not ok: fail(fn, "a default argument is not an all-zero tuple / False / None")
+
 def check_args(fn, params, allow_self=False):
+    check_zero_defaults(fn)
     a = fn.args
     names = [x.arg for x in a.args]
     if allow_self:
@@ -218,6 +333,8 @@ def lets(stmts, cx):
     """straight-line `name = expr` prefix -> list of `let` lines; extends cx.env"""
     out = []
     for s in stmts:
+        if isinstance(s, ast.ImportFrom) and s.module and s.module.startswith("autoarray.") and all(a.asname is None and a.name in OBJ_CLASSES for a in s.names):
+            continue                                  # `from autoarray.x import Grid2D`: binds a class name of the fixed vocabulary
         if not (isinstance(s, ast.Assign) and len(s.targets) == 1 and isinstance(s.targets[0], ast.Name)): fail(s, "statement")
         e, t = tr(s.value, cx)
         n = s.targets[0].id
@@ -227,7 +344,7 @@ def lets(stmts, cx):
     return out
 
 def emit(cname, params, ret, body_lines, extra_params=""):
-    ps = " ".join(f"({p} : {coq_ty(t)})" for p, t in params)
+    ps = " ".join(f"({p} : {coq_ty(t)})" for p, t in params if t != OPQ)
     return f"Definition {cname} {extra_params}{ps} : {coq_ty(ret)} :=\n  " + "\n  ".join(body_lines) + ".\n"
 
 def tr_straight(fn, cname, params, ret, funcs, selfinfo=None, real=False):
@@ -240,6 +357,63 @@ def tr_straight(fn, cname, params, ret, funcs, selfinfo=None, real=False):
     e, t = tr(body[-1].value, cx)
     if t != ret: fail(body[-1], f"return type {t}, declared {ret}")
     return emit(cname, params, ret, lines + [e])
+
+# ------------------------------------------------------------------ objects (fixed vocabulary; the glue it rests on is pinned below)
+OBJ_CLASSES = ("Mask2D", "Grid2D", "Array2D", "Geometry2D", "Mask1D", "Grid1D", "Geometry1D")
+ATTRS = {
+    (M2O, "pixel_scales"): ("(snd (fst {e}))", TT), (M2O, "origin"): ("(snd {e})", TT),
+    (M2O, "shape"): ("(mshape (fst (fst {e})))", ZZ), (M2O, "shape_native"): ("(mshape (fst (fst {e})))", ZZ),
+    (M2O, "derive_mask"): ("{e}", DM2O), (M2O, "derive_grid"): ("{e}", DG2O), (DM2O, "mask"): ("{e}", M2O), (DG2O, "mask"): ("{e}", M2O),
+    (G2O, "mask"): ("(snd {e})", M2O), (A2O, "mask"): ("(snd {e})", M2O),
+    # Structure.shape_native / pixel_scales / origin are the mask's (pinned)
+    (G2O, "shape_native"): ("(mshape (fst (fst (snd {e}))))", ZZ), (G2O, "pixel_scales"): ("(snd (fst (snd {e})))", TT), (G2O, "origin"): ("(snd (snd {e}))", TT),
+    (M1O, "pixel_scales"): ("(snd (fst {e}))", T), (M1O, "origin"): ("(snd {e})", T),
+    (M1O, "shape"): ("(Z.of_nat (length (fst (fst {e}))))", Z), (M1O, "shape_native"): ("(Z.of_nat (length (fst (fst {e}))))", Z),
+    (M1O, "shape_slim"): ("(Z.of_nat (length (fst (fst {e}))))", Z),
+    (M1O, "derive_mask"): ("{e}", DM1O), (DM1O, "mask"): ("{e}", M1O), (G1O, "mask"): ("(snd {e})", M1O),
+}
+OBJPROPS = {}        # (object type, property name) -> (coq name, return type): filled as the properties are translated
+CTORS = {            # class -> (parameters, optional ones with their default, format, result type)
+    "Mask2D": ([("mask", MASK), ("pixel_scales", TT), ("origin", TT), ("invert", B)], {"invert": "false"},
+               "(Mask2D_new {mask} {pixel_scales} {origin} {invert})", M2O),
+    "Mask1D": ([("mask", MASK1), ("pixel_scales", T), ("origin", T), ("invert", B)], {"invert": "false"},
+               "(Mask1D_new {mask} {pixel_scales} {origin} {invert})", M1O),
+    "Geometry2D": ([("shape_native", ZZ), ("pixel_scales", TT), ("origin", TT)], {}, "({shape_native}, {pixel_scales}, {origin})", GEO2),
+    "Geometry1D": ([("shape_native", Z), ("pixel_scales", T), ("origin", T)], {}, "({shape_native}, {pixel_scales}, {origin})", GEO1),
+    "Grid2D": ([("values", GRID), ("mask", M2O)], {}, "({values}, {mask})", G2O),
+    "Array2D": ([("values", VEC), ("mask", M2O)], {}, "({values}, {mask})", A2O),
+    "Grid1D": ([("values", VEC), ("mask", M1O)], {}, "({values}, {mask})", G1O),
+}
+IDENTITY = {"convert_pixel_scales_2d": ("pixel_scales", TT), "convert_pixel_scales_1d": ("pixel_scales", T)}
+
+def check_defaults(fn, defaults):
+    """the declared defaults are the ones written in the source"""
+    a = fn.args
+    src = {x.arg: d for x, d in zip(a.args[len(a.args) - len(a.defaults):], a.defaults)}
+    for p, v in defaults.items():
+        d = src.get(p)
+        if not (isinstance(d, ast.Constant) and isinstance(d.value, bool) and ("true" if d.value else "false") == v):
+            fail(fn, f"default of {p} is not {v}")
+
+def tr_method(fn, cname, self_params, params, ret, funcs, first, clsname=None, selfinfo=None, methods=None, self_ty=None, real=False):
+    """a method / classmethod / property with a straight-line body.  first = "self" | "cls"; self_params: the Coq parameters that
+    stand for `self` (the stored constructor arguments, or one object-typed `self`)"""
+    check_zero_defaults(fn)
+    a = fn.args
+    names = [x.arg for x in a.args]
+    if names[:1] != [first]: fail(fn, f"first parameter is not {first}")
+    if a.vararg or a.kwarg or a.kwonlyargs or a.posonlyargs: fail(fn, "unsupported parameter kinds")
+    if names[1:] != [p for p, _ in params]: fail(fn, f"parameters are {names[1:]}, expected {[p for p, _ in params]}")
+    env = dict(params)
+    if self_ty: env["self"] = self_ty
+    cx = Ctx(funcs, env, selfinfo)
+    cx.real = real; cx.clsname = clsname; cx.methods = methods or {}
+    body = strip_doc(fn.body)
+    if not body or not isinstance(body[-1], ast.Return) or body[-1].value is None: fail(fn, "method does not end in `return expr`")
+    lines = lets(body[:-1], cx)
+    e, t = tr(body[-1].value, cx)
+    if t != ret: fail(body[-1], f"return type {t}, declared {ret}")
+    return emit(cname, list(self_params) + list(params), ret, lines + [e])
 
 # ------------------------------------------------------------------ loop shapes (recognised literally)
 def key(src):
@@ -308,6 +482,42 @@ def tr_rowmap(fn, cname, params, funcs, src, width):
         es.append(to_T(e, t, s))
     rowfun = f"(fun row : {coq_ty(TT)} => " + (f"({es[0]}, {es[1]})" if width == 2 else es[0]) + ")"
     return emit(cname, params, GRID if width == 2 else VEC, lines + [f"map {rowfun} {src}"])
+
+def tr_rowmap3(fn, cname, params, funcs, src):
+    """
+        OUT = np.zeros((SRC.shape[0], SRC.shape[1], 2))
+        <name = expr>*
+        for y in range(SRC.shape[0]):
+            for x in range(SRC.shape[1]):
+                OUT[y, x, 0] = E0 ; OUT[y, x, 1] = E1
+        return OUT
+    where the E read SRC only as SRC[y, x, 0] / SRC[y, x, 1] and never read OUT, y or x:   OUT = map (map (fun row => (E0, E1))) SRC
+    (SRC is a rectangular array: every row has SRC.shape[1] entries).
+    """
+    check_args(fn, params)
+    cx = Ctx(funcs, dict(params))
+    body = strip_doc(fn.body)
+    if len(body) < 3 or not (isinstance(body[-1], ast.Return) and isinstance(body[-1].value, ast.Name)):
+        fail(fn, "row-map-3: does not end in `return OUT`")
+    out = body[-1].value.id
+    if cx.env.get(src) != GRID3 or out in cx.env: fail(fn, "row-map-3: name clash / source is not a native grid")
+    if not stmt_is(body[0], f"{out} = np.zeros(({src}.shape[0], {src}.shape[1], 2))"): fail(body[0], "row-map-3: allocation")
+    lines = lets(body[1:-2], cx)
+    loop = body[-2]
+    y, b0 = range_over(loop)
+    if not same(b0, f"{src}.shape[0]") or len(loop.body) != 1: fail(loop, "row-map-3: outer loop")
+    inner = loop.body[0]
+    x, b1 = range_over(inner)
+    if not same(b1, f"{src}.shape[1]") or x == y or x in cx.env or y in cx.env: fail(inner, "row-map-3: inner loop")
+    cxb = Ctx(funcs, {k: v for k, v in cx.env.items() if k != src})
+    cxb.subst = {key(f"{src}[{y}, {x}, 0]"): ("(fst row)", T), key(f"{src}[{y}, {x}, 1]"): ("(snd row)", T)}
+    targets = [f"{out}[{y}, {x}, 0]", f"{out}[{y}, {x}, 1]"]
+    if len(inner.body) != 2: fail(inner, "row-map-3: loop body is not one store per output column")
+    es = []
+    for s, tg in zip(inner.body, targets):
+        e, t = tr(store_value(s, tg), cxb)
+        es.append(to_T(e, t, s))
+    return emit(cname, params, GRID3, lines + [f"map (map (fun row : {coq_ty(TT)} => ({es[0]}, {es[1]}))) {src}"])
 
 def tr_gather(fn, cname, params, funcs, mask, dims, total_call):
     """
@@ -436,6 +646,7 @@ def tr_class(cls, cnode, attrs, plan, funcs, out):
         txt = tr_straight(fn, f"{cls}_{pname}", params, ret, funcs, selfinfo=(cls, attrs, dict(props), args))
         props[pname] = ret
         out.append(f"(* {cls}.{pname}: line {fn.lineno} *)\n" + txt)
+    return props
 
 HEADER = """(* GENERATED by /verif/py2v/gen_geometry.py (py2v plug-in) from {src} -- do not edit; regenerated on every run *)
 From Coq Require Import ZArith List Bool Reals.
@@ -458,9 +669,29 @@ Definition zrange (n : Z) : list Z := map Z.of_nat (seq 0 (Z.to_nat n)).
 Definition mshape (m : list (list bool)) : Z * Z := (Z.of_nat (length m), Z.of_nat (length (hd [] m))).
 Definition mget2 (m : list (list bool)) (y x : Z) : bool := nth (Z.to_nat x) (nth (Z.to_nat y) m []) true.
 Definition mget1 (m : list bool) (x : Z) : bool := nth (Z.to_nat x) m true.
+(* np.full(shape, b) *)
+Definition full2 (b : bool) (sh : Z * Z) : list (list bool) := repeat (repeat b (Z.to_nat (snd sh))) (Z.to_nat (fst sh)).
+Definition full1 (b : bool) (n : Z) : list bool := repeat b (Z.to_nat n).
 
 Section Gen.
 Context {{O : NumOps}}.
+
+(* OBJECTS.  An instance is represented by what its constructor stores:
+     Mask2D      (content, pixel_scales, origin)            Mask1D      (content, pixel_scale, origin)
+     Geometry2D  (shape_native, pixel_scales, origin)       Geometry1D  (shape_native, pixel_scale, origin)
+     Grid2D      (slim values, mask object)                 Array2D / Grid1D likewise;   DeriveMask2D(mask) / DeriveGrid2D(mask): the mask
+   resting on this pinned (literally compared) glue: Mask2D.__init__ / Mask1D.__init__ (bool content, `invert` complements it, the pixel
+   scales / origin are stored), Mask.__init__, Mask2D.shape_native / Mask1D.shape_native / shape_slim (= the array's shape),
+   Mask2D.derive_mask / derive_grid, DeriveMask2D.__init__ / DeriveGrid2D.__init__ / DeriveMask1D.__init__, Grid2D.no_mask / Grid1D.no_mask,
+   convert_pixel_scales_{{1,2}}d (the identity on a tuple), and on this contract of the structure constructors (checked by the
+   correspondence run, not derived from source): Grid2D(values=v, mask=M) / Array2D(..) / Grid1D(..) with slim `v` stores v unchanged;
+   np.array(G) of a slim-stored structure is its values, np.array(M) of a mask its content; a.astype('int') truncates toward zero. *)
+Definition astype_int_grid (g : list (T O * T O)) : list (T O * T O) := map (fun p => (ofZ O (trunc (fst p)), ofZ O (trunc (snd p)))) g.
+Definition astype_int_vec (v : list (T O)) : list (T O) := map (fun x => ofZ O (trunc x)) v.
+Definition Mask2D_new (mask : list (list bool)) (pixel_scales origin : T O * T O) (invert : bool)
+  : list (list bool) * (T O * T O) * (T O * T O) := (if invert then map (map negb) mask else mask, pixel_scales, origin).
+Definition Mask1D_new (mask : list bool) (pixel_scales origin : T O) (invert : bool) : list bool * T O * T O :=
+  (if invert then map negb mask else mask, pixel_scales, origin).
 """
 FOOTER = "End Gen.\n"
 
@@ -503,6 +734,7 @@ def gen_geometry(repo, outdir):
         if not isinstance(fn, ast.FunctionDef): raise Fail(f"py2v: {name} is not a function")
         if kind == "straight": txt = tr_straight(fn, name, params, ret, funcs, real=real)
         elif kind == "rowmap": txt = tr_rowmap(fn, name, params, funcs, **kw)
+        elif kind == "rowmap3": txt = tr_rowmap3(fn, name, params, funcs, **kw)
         elif kind == "gather": txt = tr_gather(fn, name, params, funcs, **kw)
         elif kind == "maskfill": txt = tr_maskfill(fn, name, params, funcs, real=real, **kw)
         else: raise Fail("py2v: unknown kind " + kind)
@@ -556,6 +788,11 @@ def gen_geometry(repo, outdir):
     add(g1u, "grid_1d_slim_via_mask_from", [("mask_1d", MASK1), ("pixel_scales", T), ("origin", T)], VEC,
         kind="gather", mask="mask_1d", dims=1, total_call="mask_1d_util.total_pixels_1d_from")
 
+    # ---- the native (3-D) index routine, the all-false pixel-centre grids
+    add(gu, "grid_pixel_centres_2d_from", [("grid_scaled_2d", GRID3)] + P, GRID3, kind="rowmap3", src="grid_scaled_2d")
+    add(g2u, "grid_2d_slim_via_shape_native_from", P, GRID)
+    add(g1u, "grid_1d_slim_via_shape_slim_from", [("shape_slim", Z), ("pixel_scales", T), ("origin", T)], VEC)
+
     # ---- Geometry2D / Geometry1D
     g2 = find_def(parse(repo, "autoarray/geometry/geometry_2d.py").body, "Geometry2D")
     check_init(find_def(g2.body, "__init__"), ["shape_native", "pixel_scales", "origin"],
@@ -566,15 +803,159 @@ def gen_geometry(repo, outdir):
                 pixel_scales = (pixel_scales, pixel_scales)
             return pixel_scales
         ''', "geometry_util.convert_pixel_scales_2d")
-    tr_class("Geometry2D", g2, {"shape_native": ZZ, "pixel_scales": TT, "origin": TT},
-             [("shape_native_scaled", TT), ("scaled_maxima", TT), ("scaled_minima", TT), ("extent", T4)], funcs, out)
+    pinned(unannotated(find_def(gu.body, "convert_pixel_scales_1d")), '''
+        def convert_pixel_scales_1d(pixel_scales):
+            if type(pixel_scales) is float:
+                pixel_scales = (pixel_scales,)
+            return pixel_scales
+        ''', "geometry_util.convert_pixel_scales_1d")
+    g2attrs = {"shape_native": ZZ, "pixel_scales": TT, "origin": TT}
+    props2 = tr_class("Geometry2D", g2, g2attrs,
+                      [("shape_native_scaled", TT), ("scaled_maxima", TT), ("scaled_minima", TT), ("extent", T4),
+                       ("central_pixel_coordinates", TT), ("central_scaled_coordinates", TT)], funcs, out)
+    methods2 = {}
+    for mname, params, ret in [("pixel_coordinates_2d_from", [("scaled_coordinates_2d", TT)], ZZ),
+                               ("scaled_coordinates_2d_from", [("pixel_coordinates_2d", TT)], TT),
+                               ("scaled_coordinate_2d_to_scaled_at_pixel_centre_from", [("scaled_coordinate_2d", TT)], TT),
+                               ("grid_pixels_2d_from", [("grid_scaled_2d", G2O)], G2O),
+                               ("grid_pixel_centres_2d_from", [("grid_scaled_2d", G2O)], G2O),
+                               ("grid_pixel_indexes_2d_from", [("grid_scaled_2d", G2O)], A2O),
+                               ("grid_scaled_2d_from", [("grid_pixels_2d", G2O)], G2O)]:
+        fn = find_def(g2.body, mname)
+        txt = tr_method(fn, f"Geometry2D_{mname}", list(g2attrs.items()), params, ret, funcs, "self",
+                        selfinfo=("Geometry2D", g2attrs, props2, "shape_native pixel_scales origin"), methods=methods2)
+        methods2[mname] = (f"Geometry2D_{mname}", params, ret)
+        out.append(f"(* Geometry2D.{mname}: line {fn.lineno} *)\n" + txt)
     g1 = find_def(parse(repo, "autoarray/geometry/geometry_1d.py").body, "Geometry1D")
     check_init(find_def(g1.body, "__init__"), ["shape_native", "pixel_scales", "origin"], convert=None, what="Geometry1D.__init__")
     tr_class("Geometry1D", g1, {"shape_native": Z, "pixel_scales": T, "origin": T},
              [("shape_slim_scaled", T), ("scaled_maxima", T), ("scaled_minima", T), ("extent", TT)], funcs, out)
 
-    srcs = ("autoarray/geometry/{geometry_util,geometry_2d,geometry_1d}.py, autoarray/mask/mask_2d_util.py, "
-            "autoarray/structures/grids/{grid_2d_util,grid_1d_util}.py")
+    # ---- Mask2D: constructors and the geometry it hands out
+    OBJPROPS.clear()
+    def method(cnode, cls, mname, coqname, self_params, params, ret, first, defaults=None, objprop=None, real=False, **kw):
+        fn = find_def(cnode.body, mname)
+        if defaults: check_defaults(fn, defaults)
+        if objprop and not py2v.is_property(fn): raise Fail(f"py2v: {cls}.{mname} is not a property")
+        if first == "cls" and not any(isinstance(d, ast.Name) and d.id == "classmethod" for d in fn.decorator_list):
+            raise Fail(f"py2v: {cls}.{mname} is not a classmethod")
+        txt = tr_method(fn, coqname, self_params, params, ret, funcs, first, clsname=cls, real=real, **kw)
+        if first == "cls": funcs[f"{cls}.{mname}"] = (coqname, params, ret, defaults or {})
+        if objprop: OBJPROPS[objprop] = (coqname, ret)
+        if real:
+            REAL_ONLY.add(f"{cls}.{mname}")
+            out_real.append(f"(* {cls}.{mname}: line {fn.lineno} *)\n" + as_real(txt))
+        else:
+            out.append(f"(* {cls}.{mname}: line {fn.lineno} *)\n" + txt)
+    mtree = parse(repo, "autoarray/mask/mask_2d.py")
+    m2 = find_def(mtree.body, "Mask2D")
+    pinned(unannotated(find_def(m2.body, "__init__")), '''
+        def __init__(self, mask, pixel_scales, origin=(0.0, 0.0), invert=False, *args, **kwargs):
+            if type(mask) is list:
+                mask = np.asarray(mask).astype("bool")
+            if not isinstance(mask, np.ndarray):
+                mask = mask._array
+            if invert:
+                mask = np.invert(mask)
+            pixel_scales = geometry_util.convert_pixel_scales_2d(pixel_scales=pixel_scales)
+            if len(mask.shape) != 2:
+                raise exc.MaskException("The input mask is not a two dimensional array")
+            super().__init__(mask=mask, origin=origin, pixel_scales=pixel_scales)
+        ''', "Mask2D.__init__")
+    amask = find_def(parse(repo, "autoarray/mask/abstract_mask.py").body, "Mask")
+    pinned(unannotated(find_def(amask.body, "__init__")), '''
+        def __init__(self, mask, origin, pixel_scales, *args, **kwargs):
+            mask = mask.astype("bool")
+            super().__init__(mask)
+            self.pixel_scales = pixel_scales
+            self.origin = origin
+        ''', "Mask.__init__")
+    pinned(unannotated(find_def(m2.body, "shape_native")), "def shape_native(self):\n    return self.shape", "Mask2D.shape_native")
+    pinned(unannotated(find_def(m2.body, "derive_mask")), "def derive_mask(self):\n    return DeriveMask2D(mask=self)", "Mask2D.derive_mask")
+    pinned(unannotated(find_def(m2.body, "derive_grid")), "def derive_grid(self):\n    return DeriveGrid2D(mask=self)", "Mask2D.derive_grid")
+    dm2 = find_def(parse(repo, "autoarray/mask/derive/mask_2d.py").body, "DeriveMask2D")
+    dg2 = find_def(parse(repo, "autoarray/mask/derive/grid_2d.py").body, "DeriveGrid2D")
+    for c, w in ((dm2, "DeriveMask2D"), (dg2, "DeriveGrid2D")):
+        pinned(unannotated(find_def(c.body, "__init__")), "def __init__(self, mask):\n    self.mask = mask", w + ".__init__")
+    SH = [("shape_native", ZZ)]; TAIL = [("pixel_scales", TT), ("origin", TT), ("centre", TT), ("invert", B)]
+    INV = {"invert": "false"}
+    method(m2, "Mask2D", "all_false", "Mask2D_all_false", [], SH + [("pixel_scales", TT), ("origin", TT), ("invert", B)], M2O, "cls", defaults=INV)
+    method(m2, "Mask2D", "circular", "Mask2D_circular", [], SH + [("radius", T)] + TAIL, M2O, "cls", defaults=INV)
+    method(m2, "Mask2D", "circular_annular", "Mask2D_circular_annular", [], SH + [("inner_radius", T), ("outer_radius", T)] + TAIL, M2O, "cls", defaults=INV)
+    method(m2, "Mask2D", "circular_anti_annular", "Mask2D_circular_anti_annular", [],
+           SH + [("inner_radius", T), ("outer_radius", T), ("outer_radius_2", T)] + TAIL, M2O, "cls", defaults=INV)
+    method(m2, "Mask2D", "elliptical", "Mask2D_elliptical", [],
+           SH + [("major_axis_radius", T), ("axis_ratio", T), ("angle", T)] + TAIL, M2O, "cls", defaults=INV, real=True)
+    method(m2, "Mask2D", "elliptical_annular", "Mask2D_elliptical_annular", [],
+           SH + [("inner_major_axis_radius", T), ("inner_axis_ratio", T), ("inner_phi", T),
+                 ("outer_major_axis_radius", T), ("outer_axis_ratio", T), ("outer_phi", T)] + TAIL, M2O, "cls", defaults=INV, real=True)
+    method(m2, "Mask2D", "geometry", "Mask2D_geometry", [("self", M2O)], [], GEO2, "self", objprop=(M2O, "geometry"), self_ty=M2O)
+    method(dm2, "DeriveMask2D", "all_false", "DeriveMask2D_all_false", [("self", DM2O)], [], M2O, "self", objprop=(DM2O, "all_false"), self_ty=DM2O)
+
+    # ---- Grid2D constructors, DeriveGrid2D
+    st = find_def(parse(repo, "autoarray/structures/abstract_structure.py").body, "Structure")
+    for pn, body in (("shape_native", "return self.mask.shape"), ("pixel_scales", "return self.mask.pixel_scales"), ("origin", "return self.mask.origin")):
+        pinned(unannotated(find_def(st.body, pn)), f"def {pn}(self):\n    {body}", "Structure." + pn)
+    gr2 = find_def(parse(repo, "autoarray/structures/grids/uniform_2d.py").body, "Grid2D")
+    pinned(unannotated(find_def(gr2.body, "no_mask")), '''
+        def no_mask(cls, values, pixel_scales, shape_native=None, origin=(0.0, 0.0), over_sampling=None):
+            pixel_scales = geometry_util.convert_pixel_scales_2d(pixel_scales=pixel_scales)
+            values = grid_2d_util.convert_grid(grid=values)
+            if len(values.shape) == 2:
+                grid_2d_util.check_grid_slim(grid=values, shape_native=shape_native)
+            else:
+                shape_native = (int(values.shape[0]), int(values.shape[1]))
+            mask = Mask2D.all_false(shape_native=shape_native, pixel_scales=pixel_scales, origin=origin)
+            return Grid2D(values=values, mask=mask, over_sampling=over_sampling)
+        ''', "Grid2D.no_mask")
+    NM = [("values", GRID), ("shape_native", ZZ), ("pixel_scales", TT), ("origin", TT), ("over_sampling", OPQ)]
+    out.append("(* Grid2D.no_mask (pinned), for slim `values` and a shape_native that is given *)\n"
+               + emit("Grid2D_no_mask", NM, G2O, ["(values, Mask2D_all_false shape_native pixel_scales origin false)"]))
+    funcs["Grid2D.no_mask"] = ("Grid2D_no_mask", NM, G2O, {})
+    method(gr2, "Grid2D", "from_mask", "Grid2D_from_mask", [], [("mask", M2O), ("over_sampling", OPQ)], G2O, "cls")
+    method(gr2, "Grid2D", "uniform", "Grid2D_uniform", [], SH + [("pixel_scales", TT), ("origin", TT), ("over_sampling", OPQ)], G2O, "cls")
+    method(dg2, "DeriveGrid2D", "all_false", "DeriveGrid2D_all_false", [("self", DG2O)], [], G2O, "self", objprop=(DG2O, "all_false"), self_ty=DG2O)
+    method(dg2, "DeriveGrid2D", "unmasked", "DeriveGrid2D_unmasked", [("self", DG2O)], [], G2O, "self", objprop=(DG2O, "unmasked"), self_ty=DG2O)
+
+    # ---- 1-D: Mask1D, Grid1D
+    m1 = find_def(parse(repo, "autoarray/mask/mask_1d.py").body, "Mask1D")
+    pinned(unannotated(find_def(m1.body, "__init__")), '''
+        def __init__(self, mask, pixel_scales, origin=(0.0,), invert=False):
+            if type(mask) is list:
+                mask = np.asarray(mask).astype("bool")
+            if invert:
+                mask = np.invert(mask)
+            if type(pixel_scales) is float:
+                pixel_scales = (pixel_scales,)
+            if len(mask.shape) != 1:
+                raise exc.MaskException("The input mask is not a one dimensional array")
+            super().__init__(mask=mask, pixel_scales=pixel_scales, origin=origin)
+        ''', "Mask1D.__init__")
+    for pn in ("shape_native", "shape_slim"):
+        pinned(unannotated(find_def(m1.body, pn)), f"def {pn}(self):\n    return self.shape", "Mask1D." + pn)
+    pinned(unannotated(find_def(m1.body, "derive_mask")), "def derive_mask(self):\n    return DeriveMask1D(mask=self)", "Mask1D.derive_mask")
+    dm1 = find_def(parse(repo, "autoarray/mask/derive/mask_1d.py").body, "DeriveMask1D")
+    pinned(unannotated(find_def(dm1.body, "__init__")), "def __init__(self, mask):\n    self.mask = mask", "DeriveMask1D.__init__")
+    method(m1, "Mask1D", "all_false", "Mask1D_all_false", [], [("shape_slim", Z), ("pixel_scales", T), ("origin", T), ("invert", B)], M1O, "cls", defaults=INV)
+    method(m1, "Mask1D", "geometry", "Mask1D_geometry", [("self", M1O)], [], GEO1, "self", objprop=(M1O, "geometry"), self_ty=M1O)
+    method(dm1, "DeriveMask1D", "all_false", "DeriveMask1D_all_false", [("self", DM1O)], [], M1O, "self", objprop=(DM1O, "all_false"), self_ty=DM1O)
+    gr1 = find_def(parse(repo, "autoarray/structures/grids/uniform_1d.py").body, "Grid1D")
+    pinned(unannotated(find_def(gr1.body, "no_mask")), '''
+        def no_mask(cls, values, pixel_scales, origin=(0.0,)):
+            pixel_scales = geometry_util.convert_pixel_scales_1d(pixel_scales=pixel_scales)
+            values = grid_2d_util.convert_grid(grid=values)
+            mask = Mask1D.all_false(shape_slim=values.shape[0], pixel_scales=pixel_scales, origin=origin)
+            return Grid1D(values=values, mask=mask)
+        ''', "Grid1D.no_mask")
+    NM1 = [("values", VEC), ("pixel_scales", T), ("origin", T)]
+    out.append("(* Grid1D.no_mask (pinned) *)\n"
+               + emit("Grid1D_no_mask", NM1, G1O, ["(values, Mask1D_all_false (Z.of_nat (length values)) pixel_scales origin false)"]))
+    funcs["Grid1D.no_mask"] = ("Grid1D_no_mask", NM1, G1O, {})
+    method(gr1, "Grid1D", "from_mask", "Grid1D_from_mask", [], [("mask", M1O)], G1O, "cls")
+    method(gr1, "Grid1D", "uniform", "Grid1D_uniform", [], [("shape_native", Z), ("pixel_scales", T), ("origin", T)], G1O, "cls")
+
+    srcs = ("autoarray/geometry/{geometry_util,geometry_2d,geometry_1d}.py, autoarray/mask/{mask_2d_util,mask_2d,mask_1d}.py, "
+            "autoarray/mask/derive/{mask_2d,grid_2d,mask_1d}.py, autoarray/structures/grids/{grid_2d_util,grid_1d_util,uniform_2d,uniform_1d}.py")
     text = (HEADER.format(src=srcs) + "\n" + "\n".join(out) + "\n" + FOOTER
             + "\n(* ---- real-number-only definitions (arctan2 / sin / cos: not executable; see Model/C02x.v for the executable form) *)\n"
             + "\n".join(out_real))
